@@ -9,7 +9,26 @@
                                                  dumped from Rust's char methods; prints "R name #ranges"
      T src                                       C06Words.doc_words: the Word-token spans "s e s e .." | "-" | "P"
      O w                                         C06Words.one_word: 1 / 0
-     A cp                                        the four flags Tables_f24.f24_alphabet gives the character: e.g. 0011 *)
+     A cp                                        the four flags Tables_f24.f24_alphabet gives the character: e.g. 0011
+     D                                           the dictionary REBUILT from dictionary.dict + affixes.json by the translator
+                                                 (Tables_f24.dict_word_count / dict_digest): "count digest(hex)"
+     M w                                         is w in Tables_f24.dict_nonsimple_entries (rebuilt entries that are not simple words)? 1 / 0
+     NC                                          length of dict_nonsimple_entries
+     B w                                         simple_wordb / alnum_wordb under the R tables: e.g. "01" *)
+(* N -> 16 hex digits (dict_digest does not fit OCaml's 63-bit int) *)
+let hex_of_n (x : n) : string =
+  let rec bits p = match p with XH -> [1] | XO q -> 0 :: bits q | XI q -> 1 :: bits q in
+  let bs = match x with N0 -> [] | Npos p -> bits p in
+  let rec nibbles = function
+    | [] -> []
+    | a :: b :: c :: d :: t -> (a + 2 * b + 4 * c + 8 * d) :: nibbles t
+    | l -> nibbles (l @ [0]) in
+  let ds = List.rev (nibbles bs) in
+  let s = String.concat "" (List.map (Printf.sprintf "%x") ds) in
+  String.make (max 0 (16 - String.length s)) '0' ^ s
+let nonsimple : (int list, unit) Hashtbl.t Lazy.t = lazy (
+  let h = Hashtbl.create 2048 in
+  List.iter (fun e -> Hashtbl.replace h (List.map int_of_n e) ()) dict_nonsimple_entries; h)
 let tables : (string, (int * int) array) Hashtbl.t = Hashtbl.create 8
 let in_table name =
   fun (c : n) ->
@@ -118,6 +137,13 @@ let () =
              let b x = if x then "1" else "0" in
              print_endline (b w ^ b nm ^ b al ^ b lg)
          | _ -> print_endline "?")
+    | 'D' -> Printf.printf "%d %s\n" (int_of_n dict_word_count) (hex_of_n dict_digest)
+    | 'M' -> print_endline (if Hashtbl.mem (Lazy.force nonsimple) (ints_of_line body) then "1" else "0")
+    | 'N' -> Printf.printf "%d\n" (List.length dict_nonsimple_entries)
+    | 'B' ->
+        let w = text_of_line body in
+        let b x = if x then "1" else "0" in
+        print_endline (b (simple_wordb (uni_now ()) w) ^ b (alnum_wordb (uni_now ()) w))
     | 'W' ->
         print_endline (String.concat " | "
           [show_entries f24_dict; line_of_text w_socio_political; show_spans f24_words; show_lints f24_run])
